@@ -202,9 +202,9 @@ func init() {
 			js = append(js, job("fit", "H13", "defkind", 0), job("fit", "H13b"))
 			return js
 		},
-		MustReach: []string{"decoded", "rejected", "C01.field.consumed-size", "entry-points-returned"},
+		MustReach: []string{"decoded", "rejected", "routed", "C01.field.consumed-size", "entry-points-returned"},
 		Bounds: map[string]interface{}{
-			"quick": "H01a: every single-field definition, exhaustively: each of the profile's message numbers (from the tree) plus one unknown number x all 256 field numbers x all 256 base-type bytes x all sizes 0-255 x both byte orders x all data bytes (string sizes restricted to {0..8,16,127,128,254,255}; string arrays: sizes 0..6 fully symbolic, larger with one terminator); H01s: all five entry points (Decode also with all options) on every stream of the model with n = 2 records, whole and (half of the sequences) cut at every offset, chunk sizes 1, 3, unlimited; H13/H13b: one record through the dispatcher from an arbitrary reference timestamp",
+			"quick": "H01a (parse one record, then hand the message to a File of every hosting type, which routes it and expands components): every single-field definition, exhaustively: each of the profile's message numbers (from the tree) plus one unknown number x all 256 field numbers x all 256 base-type bytes x all sizes 0-255 x both byte orders x all data bytes (string sizes restricted to {0..8,16,127,128,254,255}; string arrays: sizes 0..6 fully symbolic, larger with one terminator); H01s: all five entry points (Decode also with all options) on every stream of the model with n = 2 records, whole and (half of the sequences) cut at every offset, chunk sizes 1, 3, unlimited; H13/H13b: one record through the dispatcher from an arbitrary reference timestamp",
 			"thorough": "H01a with every string size and two terminators in long string arrays; H01s with n = 3 and every sequence cut",
 		},
 		Assumptions: commonAssumptions,
@@ -235,7 +235,8 @@ func init() {
 
 func init() {
 	reg(&CheckDef{
-		ID: "C04",
+		ID:   "C04",
+		Meta: "fit.Hmeta",
 		Jobs: func(tier string, meta map[string]int) []Job {
 			js := []Job{job("dyncrc16", "H04lin"), job("dyncrc16", "H04ker"), job("dyncrc16", "H04burst"), job("dyncrc16", "H14c"),
 				job("fit", "H04hdr", "size", 12), job("fit", "H04hdr", "size", 14)}
@@ -275,16 +276,31 @@ func init() {
 					js = append(js, j)
 				}
 			}
+			// first clause: what Encode produced passes CheckIntegrity (H05 carries
+			// the assertion; every hosted message with every field set, both byte
+			// orders, with and without header CRC)
+			for _, e := range encJobs(tier, meta) {
+				if e.Params["fi"] == -1 {
+					js = append(js, e)
+					e2 := e
+					e2.Params = map[string]int{}
+					for k, v := range e.Params {
+						e2.Params[k] = v
+					}
+					e2.Params["crc"] = 1 - e.Params["crc"]
+					js = append(js, e2)
+				}
+			}
 			return js
 		},
-		MustReach: []string{"C04.lemma.linear", "C04.lemma.kernel", "C04.lemma.injective", "C04.lemma.burst", "C04.hdr.rule", "C04.hdr.method-vs-decodeheader", "C04.burst.decode-detects", "C04.sym.checkintegrity-detects"},
+		MustReach: []string{"C04.lemma.linear", "C04.lemma.kernel", "C04.lemma.injective", "C04.lemma.burst", "C04.hdr.rule", "C04.hdr.method-vs-decodeheader", "C04.burst.decode-detects", "C04.sym.checkintegrity-detects", "C04.encode-output-passes-checkintegrity"},
 		Bounds: map[string]interface{}{
-			"quick":    "lemmas on updateByte: none (all states, bytes, 16-bit patterns, 8 bit offsets); header verdicts: all 2^104 / 2^88 header byte values for sizes 14 and 12; direct bursts: every pattern of <= 8 contiguous bits at every bit position of one concrete 50-byte activity file (Decode and CheckIntegrity), every <= 16-bit pattern at every position of every accepted frame with a 12-byte header and D <= 2 arbitrary data bytes (CheckIntegrity)",
+			"quick":    "lemmas on updateByte: none (all states, bytes, 16-bit patterns, 8 bit offsets); header verdicts: all 2^104 / 2^88 header byte values for sizes 14 and 12; direct bursts: every pattern of <= 8 contiguous bits at every bit position of one concrete 50-byte activity file (Decode and CheckIntegrity), every <= 16-bit pattern at every position of every accepted frame with a 12-byte header and D <= 2 arbitrary data bytes (CheckIntegrity); Encode output passes CheckIntegrity: one File per (file type, hosted message) with every field set to fixed values, both byte orders, headers with and without CRC",
 			"thorough": "as quick with <= 16-bit patterns on the concrete file and D <= 4",
 		},
 		Outside: []string{"frames longer than the direct bound are covered by the lemma composition in DESIGN.md section 5/C04 (linearity + kernel + burst lemma), which is a paper argument over the machine-checked lemmas",
 			"Header.CheckIntegrity on Size values other than 12 and 14 (it panics on e.g. 13; not part of the property)",
-			"files produced by Encode pass CheckIntegrity: decided under C05"},
+			"files produced by Encode pass CheckIntegrity: decided here for Files with one message with every field set (fixed values) per hosted message type, both byte orders, both header kinds; for arbitrary field values the same assertion is evaluated in every instance of C05's check"},
 		Assumptions: commonAssumptions,
 	})
 }
@@ -343,11 +359,15 @@ func init() {
 	reg(&CheckDef{
 		ID: "C13",
 		Jobs: func(tier string, meta map[string]int) []Job {
-			return []Job{job("fit", "H13", "defkind", 0), job("fit", "H13", "defkind", 1), job("fit", "H13", "defkind", 2), job("fit", "H13b")}
+			js := []Job{job("fit", "H13", "defkind", 0), job("fit", "H13", "defkind", 1), job("fit", "H13", "defkind", 2), job("fit", "H13b")}
+			for k := 0; k < 16; k++ {
+				js = append(js, job("fit", "H13c", "k", k))
+			}
+			return js
 		},
-		MustReach: []string{"C13.def.replaces-its-slot", "C13.def.other-slots-untouched", "C13.data.undefined-slot-is-error", "C13.data.consumed-by-selected-slot", "C13.data.routed-by-selected-slot", "C13.data.definitions-never-written", "C13.dev.records-read-with-their-own-definition", "C13.dev.first-slot-descriptors-kept"},
+		MustReach: []string{"C13.def.replaces-its-slot", "C13.def.other-slots-untouched", "C13.data.undefined-slot-is-error", "C13.data.consumed-by-selected-slot", "C13.data.routed-by-selected-slot", "C13.data.definitions-never-written", "C13.dev.records-read-with-their-own-definition", "C13.dev.first-slot-descriptors-kept", "C13.redef.consumed-by-latest-definition", "C13.redef.slot-holds-exactly-the-latest-definition"},
 		Bounds: map[string]interface{}{
-			"quick":    "one record (all 256 header bytes, arbitrary record bytes) through the real decodeFileData loop from a state where all 16 slots hold pairwise distinguishable definitions (different message, record length 2..17, alternating byte order) except at most one nil slot (17 choices); definition records carry one of three bodies (with/without one developer field): a different message, the slot's own layout with the opposite byte order, or the slot's definition verbatim; plus (H13b) two developer-field definitions for two local types (every slot and its two neighbours by bit flip, developer field sizes 1-4, both orders) followed by records of both",
+			"quick":    "one record (all 256 header bytes, arbitrary record bytes) through the real decodeFileData loop from a state where all 16 slots hold pairwise distinguishable definitions (different message, record length 2..17, alternating byte order) except at most one nil slot (17 choices); definition records carry one of three bodies (with/without one developer field): a different message, the slot's own layout with the opposite byte order, or the slot's definition verbatim; plus (H13b) two developer-field definitions for two local types (every slot and its two neighbours by bit flip, developer field sizes 1-4, both orders) followed by records of both; plus (H13c) every slot redefined with 0..2 fields of 1..3 bytes, either byte order, with/without 0..2 developer fields of 1..3 bytes, followed by a record of that slot and one of the next slot (arbitrary bytes)",
 			"thorough": "same",
 		},
 		Outside: []string{"arbitrary interleavings follow by induction on the one-record step (slot contents only change by replacement; other slots pointer-identical) — paper argument",
@@ -395,9 +415,9 @@ func init() {
 			}
 			return js
 		},
-		MustReach: []string{"C02.compatible-definition-accepted", "C02.compatible-record-decodes", "C02.value.scalar", "C02.value.time", "C02.value.localtime", "C02.value.lat", "C02.value.lng", "C02.value.string", "C02.value.string-array", "C02.value.array-element", "C02.absent-fields-invalid", "compared", "C02.multi.definition-accepted", "C02.multi.record-decodes", "C02.multi.absent-fields-invalid", "C02.multi.consumed", "compared-multi"},
+		MustReach: []string{"C02.compatible-definition-accepted", "C02.compatible-record-decodes", "C02.value.scalar", "C02.value.time", "C02.value.localtime", "C02.value.lat", "C02.value.lng", "C02.value.string", "C02.value.string-array", "C02.value.array-element", "C02.absent-fields-invalid", "compared", "C02.multi.definition-accepted", "C02.multi.record-decodes", "C02.multi.absent-fields-invalid", "C02.multi.consumed", "compared-multi", "C02.second-record-decodes", "compared-second"},
 		Bounds: map[string]interface{}{
-			"quick":    "single-field definitions: every profile message x every listed field x every compatible (base type, size) pair x both byte orders x all data bytes, compared with a reference decoder; string sizes restricted to {0..8,16,127,128,254,255}; string arrays: sizes 0..6 fully symbolic, larger sizes with one terminator at any position; two-field definitions (H02b): a disturber (time/coordinate field at any compatible width, unlisted field of 1-4 bytes, developer field of 1-4 bytes, string of 1-3 bytes, array of 1-2 elements) before or after any known scalar field among the message's first 3 struct fields at its profile type, both byte orders, all data bytes",
+			"quick":    "single-field definitions: every profile message x every listed field x every compatible (base type, size) pair x both byte orders x all data bytes, compared with a reference decoder, each followed by a second record under the same definition that carries the invalid value; string sizes restricted to {0..8,16,127,128,254,255}; string arrays: sizes 0..6 fully symbolic, larger sizes with one terminator at any position; two-field definitions (H02b): a disturber (time/coordinate field at any compatible width, unlisted field of 1-4 bytes, developer field of 1-4 bytes, string of 1-3 bytes, array of 1-2 elements) before or after any known scalar field among the message's first 3 struct fields at its profile type, both byte orders, all data bytes",
 			"thorough": "as quick with every string size 0..255, two terminators in long string arrays, and every scalar field as neighbour in H02b",
 		},
 		Outside: []string{"definitions with more than two fields (plus one developer field) and whole files",
@@ -718,10 +738,10 @@ func init() {
 			}
 			return js
 		},
-		MustReach: []string{"C16.options.same-error", "C16.options.same-bytes-consumed", "C16.options.same-messages", "C16.fields.exact", "C16.messages.exact", "C16.fields.absent-without-option", "C16.fields.sorted", "C16.messages.sorted", "C16.fields.counts-preserved"},
+		MustReach: []string{"C16.options.same-error", "C16.options.same-bytes-consumed", "C16.options.same-messages", "C16.fields.exact", "C16.messages.exact", "C16.fields.absent-without-option", "C16.fields.sorted", "C16.messages.sorted", "C16.fields.count-is-number-of-records", "C16.messages.count-is-number-of-records", "C16.fields.every-key-listed-once"},
 		Bounds: map[string]interface{}{
-			"quick":    streamModel + "; n = 2, uncut (every sequence) and cut at every offset after the file_id record (every third sequence); all 8 option combinations (symbolic); sortedness of the exported lists: up to 2 arbitrary keys in every map iteration order",
-			"thorough": "as quick with n = 3 and 3 keys",
+			"quick":    streamModel + "; n = 2, uncut (every sequence) and cut at every offset after the file_id record (every third sequence); all 8 option combinations (symbolic); counts and order of the exported lists (H16b): up to 2 rounds of (definition of one of 6 known messages, two with numbers >= 256, with an arbitrary unlisted field number + record; definition of an arbitrary unknown message + record) through the real record loop, keys may repeat, every map iteration order",
+			"thorough": "as quick with n = 3 and 3 rounds",
 		},
 		Outside:     []string{"streams outside the model; more than one distinct unknown message number / unlisted field number per stream (the model has one of each, with arbitrary values)"},
 		Assumptions: append([]string{"Logger = harness no-op type; map iteration order is a symbolic permutation in H16b; sort.Sort executed from the standard library's SSA"}, commonAssumptions...),
